@@ -445,7 +445,10 @@ impl Case for BlkCase {
         if !left.is_empty() {
             self.oracle.push(("C03".into(), "C03/blocked-never-woken".into(), format!("futures {left:?} are still registered for a submission slot after {rounds} quiet Ring::poll calls with room in the queue")));
         }
-        sched::finish_all();
+        let stuck = sched::finish_all();
+        if !stuck.is_empty() {
+            self.oracle.push(("C03".into(), "C03/thread-never-returns".into(), format!("{} thread(s) (future poll / Ring::poll) did not return within 100000 scheduling steps after the script ended", stuck.len())));
+        }
         sched::uninstall();
         // Tear down: the futures are in flight forever (nothing completes): drop
         // them (cancel requests are queued), drop the ring (sync-cancels), etc.
